@@ -4469,7 +4469,15 @@ func (t *Terminal) Loop() error {
 				version++
 				// We don't display preview window if no match
 				if items[0] != nil {
+					// The temporary files are created and registered under the
+					// lock so that they cannot be missed by the at-exit function
+					runningMutex.Lock()
+					if exiting {
+						runningMutex.Unlock()
+						break
+					}
 					command, tempFiles := t.replacePlaceholder(commandTemplate, false, query, items)
+					runningFiles = tempFiles
 					cmd := t.executor.ExecCommand(command, true)
 					cmd.Env = env
 
@@ -4478,15 +4486,9 @@ func (t *Terminal) Loop() error {
 					reader := bufio.NewReader(out)
 					eofChan := make(chan bool)
 					finishChan := make(chan bool, 1)
-					runningMutex.Lock()
-					if exiting {
-						runningMutex.Unlock()
-						removeFiles(tempFiles)
-						break
-					}
 					err := cmd.Start()
 					if err == nil {
-						runningKill, runningFiles = func() { util.KillCommand(cmd) }, tempFiles
+						runningKill = func() { util.KillCommand(cmd) }
 					}
 					runningMutex.Unlock()
 					if err == nil {
@@ -4604,9 +4606,9 @@ func (t *Terminal) Loop() error {
 						<-reapChan         // Goroutine 2 and 3 finished
 						<-reapChan
 						runningMutex.Lock()
+						removeFiles(tempFiles)
 						runningKill, runningFiles = nil, nil
 						runningMutex.Unlock()
-						removeFiles(tempFiles)
 					} else {
 						// Failed to start the command. Report the error immediately.
 						t.reqBox.Set(reqPreviewDisplay, previewResult{version, []string{err.Error()}, 0, ""})
